@@ -119,8 +119,8 @@ gate_shape!(o15_1_gate_gap_first_frame, 7, 0, 0b10, inside, false, true);
 gate_shape!(o15_1_gate_top_bit, 7, 0, 0x8000_0000);
 
 //@h props=C15,C14 tier=quick timeout=1500 role=ack-replay unwindset=FrameQueue17acknowledge_group.0:34
-//@fn FrameQueue::{push, acknowledge_group, get_feedback}, FeedbackGen::{put_ack_data, get_feedback}
-//@bound log of 2 frames at base 2^32-1; a genuine group acknowledging both frames is processed, feedback is collected at any time, then the SAME group arrives again (duplicate or delayed replay) and feedback is collected again at any later time
+//@fn FrameQueue::{push, acknowledge_group}, FeedbackGen::{put_ack_data, notify_ack}
+//@bound log of 2 frames at base 2^32-1; a genuine group acknowledging both frames is processed and its pending feedback is consumed (as get_feedback does); then the SAME group arrives again (network duplicate or delayed replay)
 #[kani::proof]
 #[kani::unwind(6)]
 fn o15_2_replayed_ack_has_no_effect() {
@@ -128,21 +128,54 @@ fn o15_2_replayed_ack_has_no_effect() {
     let g = frame::AckGroup { base_id: 0xFFFF_FFFF, bitfield: 0b11, nonce: n0 ^ n1 };
     let rtt = if kani::any() { Some(kani::any::<u64>() & 0xFFFF) } else { None };
     fq.acknowledge_group(g.clone(), rtt);
-    let now1: u64 = kani::any();
-    kani::assume(now1 >= t1 && now1 < 1 << 40);
-    let fb1 = fq.get_feedback(now1);
+    let fb1 = fq.feedback_gen.ack_data.take();
     assert!(fb1.is_some(), "[C15] a genuine fresh acknowledgement produces one feedback sample");
-    assert!(fb1.as_ref().unwrap().rtt_ms == now1 - t1, "[C14,C15] the RTT sample is measured from the newest acknowledged frame");
+    assert!(fb1.as_ref().unwrap().last_send_time_ms == t1, "[C14,C15] the RTT sample is measured from the newest acknowledged frame");
     let mid = snapshot(&fq, &p0, &p1);
     // replay
     fq.acknowledge_group(g, rtt);
     let after = snapshot(&fq, &p0, &p1);
     assert!(same(&mid, &after), "[C15] a repeated copy of an earlier acknowledgement changes no acknowledgement, loss or reorder state");
-    let now2: u64 = kani::any();
-    kani::assume(now2 >= now1 && now2 < 1 << 40);
-    let fb2 = fq.get_feedback(now2);
-    assert!(fb2.is_none(), "[C15] a repeated copy of an earlier acknowledgement produces no RTT / receive-rate sample");
+    assert!(fq.feedback_gen.ack_data.is_none(), "[C15] a repeated copy of an earlier acknowledgement produces no RTT / receive-rate sample");
     std::mem::forget(fq); std::mem::forget(p0); std::mem::forget(p1);
+}
+
+//@h props=C15,C14 tier=quick timeout=1500 role=ack-overlap unwindset=FrameQueue17acknowledge_group.0:34
+//@fn FrameQueue::{push, acknowledge_group}, FeedbackGen::{put_ack_data, notify_ack}
+//@bound log of 2 frames at base 2^32-1 sent at any t0 <= t1; the SECOND frame is acknowledged first and its feedback consumed; then a genuine group covering BOTH frames arrives (one fresh bit, one repeated bit)
+#[kani::proof]
+#[kani::unwind(6)]
+fn o15_2_overlapping_ack_counts_only_new_frames() {
+    let mut fq = FrameQueue::new(4, 4, 0xFFFF_FFFF);
+    let (n0, n1): (bool, bool) = (kani::any(), kani::any());
+    let (t0, t1): (u64, u64) = (kani::any(), kani::any());
+    kani::assume(t0 <= t1 && t1 < 1 << 40);
+    let (s0, s1): (u16, u16) = (kani::any(), kani::any());
+    fq.push(s0 as usize, t0, Box::new([]), n0);
+    fq.push(s1 as usize, t1, Box::new([]), n1);
+    let rtt = if kani::any() { Some(kani::any::<u64>() & 0xFFFF) } else { None };
+    fq.acknowledge_group(frame::AckGroup { base_id: 0, bitfield: 0b1, nonce: n1 }, rtt);
+    let fb1 = fq.feedback_gen.ack_data.take();
+    assert!(fb1.is_some() && fb1.as_ref().unwrap().last_send_time_ms == t1 && fb1.as_ref().unwrap().total_ack_size == s1 as usize, "[C14,C15] sample built from the acknowledged frame");
+    // overlapping group: frame 0 fresh, frame 1 repeated
+    fq.acknowledge_group(frame::AckGroup { base_id: 0xFFFF_FFFF, bitfield: 0b11, nonce: n0 ^ n1 }, rtt);
+    let fb2 = fq.feedback_gen.ack_data.take();
+    assert!(fb2.is_some(), "[C15] the fresh part of the group is acknowledged");
+    let fb2 = fb2.unwrap();
+    assert!(fb2.last_send_time_ms == t0, "[C15] the repeated bit does not contribute to the RTT sample (only newly acknowledged frames do)");
+    assert!(fb2.total_ack_size == s0 as usize, "[C15] the repeated bit does not contribute to the receive-rate sample");
+    kani::cover!(t0 < t1, "repeated frame was sent later than the fresh one");
+    std::mem::forget(fq);
+}
+
+//@h props=C03,C15 tier=quick timeout=1200 role=ack-gate-clear-bit unwindset=FrameQueue17acknowledge_group.0:34
+//@fn FrameQueue::{push, acknowledge_group}
+//@bound log of 2 frames at base 7; ack group shape: base = log base - 1, bitfield 0b10 (the CLEAR bit 0 covers an id that is not in the log, the set bit 1 names the first sent frame); nonces etc. any
+#[kani::proof]
+#[kani::unwind(6)]
+fn o15_1_gate_clear_bit_on_unknown_frame() {
+    let (genuine, _) = gate(7, 0xFFFF_FFFF, 0b10, false, false, false);
+    kani::cover!(!genuine, "rejected");
 }
 
 //@h props=C03,C11,C15 tier=quick timeout=1200 role=transfer-window
@@ -195,37 +228,3 @@ fn o3_4_forget_frames_any_threshold() {
     std::mem::forget(fq);
 }
 
-//@h props=C15,C14 tier=quick timeout=1500 role=ack-overlap unwindset=FrameQueue17acknowledge_group.0:34
-//@fn FrameQueue::{push, acknowledge_group, get_feedback}, FeedbackGen::{put_ack_data, get_feedback}
-//@bound log of 2 frames at base 2^32-1 sent at any t0 <= t1; the SECOND frame is acknowledged first and its feedback collected; then a genuine group covering BOTH frames arrives (one fresh bit, one repeated bit) and feedback is collected at any later time
-#[kani::proof]
-#[kani::unwind(6)]
-fn o15_2_overlapping_ack_counts_only_new_frames() {
-    let mut fq = FrameQueue::new(4, 4, 0xFFFF_FFFF);
-    let (n0, n1): (bool, bool) = (kani::any(), kani::any());
-    let (t0, t1): (u64, u64) = (kani::any(), kani::any());
-    kani::assume(t0 <= t1 && t1 < 1 << 40);
-    let (s0, s1): (u16, u16) = (kani::any(), kani::any());
-    fq.push(s0 as usize, t0, Box::new([]), n0);
-    fq.push(s1 as usize, t1, Box::new([]), n1);
-    let rtt = if kani::any() { Some(kani::any::<u64>() & 0xFFFF) } else { None };
-    fq.acknowledge_group(frame::AckGroup { base_id: 0, bitfield: 0b1, nonce: n1 }, rtt);
-    let now1: u64 = kani::any();
-    kani::assume(now1 >= t1 && now1 < 1 << 40);
-    let fb1 = fq.get_feedback(now1);
-    assert!(fb1.is_some() && fb1.as_ref().unwrap().rtt_ms == now1 - t1, "[C14,C15] RTT sample measured from the acknowledged frame");
-    // overlapping group: frame 0 fresh, frame 1 repeated
-    fq.acknowledge_group(frame::AckGroup { base_id: 0xFFFF_FFFF, bitfield: 0b11, nonce: n0 ^ n1 }, rtt);
-    let now2: u64 = kani::any();
-    kani::assume(now2 >= now1 && now2 < 1 << 40);
-    let fb2 = fq.get_feedback(now2);
-    assert!(fb2.is_some(), "[C15] the fresh part of the group is acknowledged");
-    let fb2 = fb2.unwrap();
-    assert!(fb2.rtt_ms == now2 - t0, "[C15] the repeated bit does not contribute to the RTT sample (only newly acknowledged frames do)");
-    if now2 > now1 {
-        let expect = (s0 as f64 / ((now2 - now1) as f64 / 1000.0)).clamp(0.0, u32::MAX as f64) as u32;
-        assert!(fb2.receive_rate == expect, "[C15] the repeated bit does not contribute to the receive-rate sample");
-    }
-    kani::cover!(t0 < t1, "repeated frame was sent later than the fresh one");
-    std::mem::forget(fq);
-}
